@@ -16,6 +16,15 @@ type Seed struct {
 	Pattern string
 }
 
+// LateFrom is the index in Seeds of the first seed added in the third session (set in init; the generated literal
+// sets appended after it are old except aho70). Late seeds are expanded one edit less than the older seeds in the
+// thorough tiers (i.e. exactly as in the quick tiers), because the known-finding sets of the thorough tiers could not
+// all be regenerated in the time left (SeedPatternsLate).
+var lateSeed = map[string]bool{}
+
+// IsLate reports whether the seed pattern was added in the third session.
+func IsLate(pattern string) bool { return lateSeed[pattern] }
+
 // Seeds lists the strategy seed patterns (DESIGN Appendix A). The strategy actually selected is measured at run
 // time and reported in evidence; nothing depends on the label.
 var Seeds = []Seed{
@@ -51,12 +60,30 @@ var Seeds = []Seed{
 	{"fold", `(?i)ask`}, {"alt", `(ab|c|abd+)x`},
 	// a four-part class sequence whose first class reappears (a restart inside a failed attempt matters)
 	{"composite", `[a-z]+[0-9]+[a-z]+[A-Z]+`},
+	// third session: a suffix alternation whose members share a proper common suffix (the reverse-suffix searcher
+	// measures with the common suffix but searched for the whole literals: found on the pinned tree, FX-093), a
+	// multiline reverse-suffix pattern with no prefix literal (every suffix candidate of a line re-verified the line:
+	// quadratic, FX-094), and class sequences whose neighbouring classes overlap in each of the three possible ways
+	// (the boundary of the composite searchers' linearity test)
+	{"revsuffix", `.+(afoo|bfoo)`}, {"mlrevsuffix", `(?m)^.*\d\.php`},
+	{"composite", `[a-z]+[a-z0-9]+[A-Z]+`}, {"composite", `[a-z0-9]+[a-z]+[A-Z]+`}, {"composite", `[A-Z]+[a-z]+[a-z0-9]+`},
+	// a counted repetition of an alternation inside a concatenation (literal extraction truncates the alternation under
+	// small limits and must keep the sequence flagged partial), and first-byte dispatch branches made of a literal
+	// followed by an optional / starred / plus class (the boundary of the branch dispatcher's applicability test)
+	{"alt", `(?:ab|cd|ef){2}x`}, {"branch", `^(a\d?|b\d*|c\d+|xyz)`},
 }
 
 func init() {
 	// generated literal alternations: 9 / 17 (slim Teddy bucket sharing), 33 and 64 (fat Teddy), 70 (Aho-Corasick)
 	for _, n := range []int{9, 17, 33, 64, 70} {
 		Seeds = append(Seeds, Seed{fmt.Sprintf("lits%d", n), strings.Join(GenLiterals(n), "|")})
+	}
+	// 70 literals none of which contains another: the only seed that selects UseAhoCorasick (lits70 above overlaps
+	// and is routed to the NFA with a prefilter; the evidence of the first two sessions showed 0 Aho-Corasick patterns)
+	Seeds = append(Seeds, Seed{"aho70", strings.Join(AhoLiterals(70), "|")})
+	lateSeed[strings.Join(AhoLiterals(70), "|")] = true
+	for _, p := range []string{`.+(afoo|bfoo)`, `(?m)^.*\d\.php`, `[a-z]+[a-z0-9]+[A-Z]+`, `[a-z0-9]+[a-z]+[A-Z]+`, `[A-Z]+[a-z]+[a-z0-9]+`, `(?:ab|cd|ef){2}x`, `^(a\d?|b\d*|c\d+|xyz)`} {
+		lateSeed[p] = true
 	}
 }
 
@@ -343,7 +370,10 @@ func Neighbours(root *Node, full bool) []string {
 
 // SeedPatterns returns the seeds (k=0), their full one-edit neighbourhoods (k=1) and, for k=2, one further
 // structural edit of every member of the k=1 set. Deduplicated, seeds first.
-func SeedPatterns(k int) []string {
+func SeedPatterns(k int) []string { return SeedPatternsLate(k, 0) }
+
+// SeedPatternsLate is SeedPatterns with the Late seeds expanded to k-lateDelta edits only.
+func SeedPatternsLate(k, lateDelta int) []string {
 	seen := map[string]struct{}{}
 	var out []string
 	add := func(s string) bool {
@@ -355,6 +385,7 @@ func SeedPatterns(k int) []string {
 		return true
 	}
 	var roots []*Node
+	var depth []int // edits applied to each root
 	for _, sd := range Seeds {
 		add(sd.Pattern)
 		n, err := ParseSeed(sd.Pattern)
@@ -362,35 +393,31 @@ func SeedPatterns(k int) []string {
 			panic(err)
 		}
 		roots = append(roots, n)
+		d := k
+		if lateSeed[sd.Pattern] {
+			d = max(k-lateDelta, 0)
+		}
+		depth = append(depth, d)
 	}
-	if k >= 1 {
-		var lvl1 []string
-		for _, r := range roots {
-			if r.Size() > 60 {
-				// the generated literal sets: structural menu only (the full menu would be ~10k each)
-				for _, s := range Neighbours(r, false) {
-					if add(s) {
-						lvl1 = append(lvl1, s)
-					}
-				}
-				continue
-			}
-			for _, s := range Neighbours(r, true) {
-				if add(s) {
-					lvl1 = append(lvl1, s)
-				}
+	var lvl1 []string // level-1 members whose root is expanded to two edits
+	for i, r := range roots {
+		if depth[i] < 1 {
+			continue
+		}
+		// the generated literal sets: structural menu only (the full menu would be ~10k each)
+		for _, s := range Neighbours(r, r.Size() <= 60) {
+			if add(s) && depth[i] >= 2 {
+				lvl1 = append(lvl1, s)
 			}
 		}
-		if k >= 2 {
-			for _, s := range lvl1 {
-				n, err := ParseSeed(s)
-				if err != nil || n.Size() > 60 {
-					continue
-				}
-				for _, s2 := range Neighbours(n, false) {
-					add(s2)
-				}
-			}
+	}
+	for _, s := range lvl1 {
+		n, err := ParseSeed(s)
+		if err != nil || n.Size() > 60 {
+			continue
+		}
+		for _, s2 := range Neighbours(n, false) {
+			add(s2)
 		}
 	}
 	return out
